@@ -21,6 +21,7 @@ import (
 	"fmt"
 	"sync"
 
+	getty "github.com/apache/dubbo-getty"
 	gxtime "github.com/dubbogo/gost/time"
 	"go.uber.org/atomic"
 
@@ -65,6 +66,18 @@ func (client *GettyRemotingClient) SendAsyncRequest(msg interface{}) error {
 		Body:       msg,
 	}
 	return client.gettyRemoting.SendAsync(rpcMessage, nil, client.asyncCallback)
+}
+
+// sendAsyncRequestOn sends a request over the given session instead of one the load balancer picks
+func (client *GettyRemotingClient) sendAsyncRequestOn(session getty.Session, msg interface{}) error {
+	rpcMessage := message.RpcMessage{
+		ID:         int32(client.idGenerator.Inc()),
+		Type:       message.GettyRequestTypeRequestOneway,
+		Codec:      byte(codec.CodecTypeSeata),
+		Compressor: 0,
+		Body:       msg,
+	}
+	return client.gettyRemoting.SendAsync(rpcMessage, session, client.asyncCallback)
 }
 
 func (client *GettyRemotingClient) SendAsyncResponse(msgID int32, msg interface{}) error {
